@@ -505,7 +505,7 @@ def interpreted(t):
           "call:llvm.bitreverse", "call:llvm.abs", "call:llvm.umin", "call:llvm.umax",
           "call:llvm.smin", "call:llvm.smax", "call:llvm.uadd.sat", "call:llvm.usub.sat",
           "call:llvm.sadd.sat", "call:llvm.ssub.sat", "spec:bit_floor", "spec:bit_ceil",
-          "sdiv", "udiv", "srem", "urem"} | T.FP_OPS
+          "sdiv", "udiv", "srem", "urem", "call:fmodf", "call:fmod"} | T.FP_OPS
     seen = set()
     stack = [t]
     while stack:
